@@ -32,10 +32,12 @@ Calls == {
   [name |-> "metaref",   root |-> "meta", uses |-> {}],
   [name |-> "meta",      root |-> "meta", uses |-> {}] }
 
-VARIABLES world, pkgCache, callCache, results, n
-vars == <<world, pkgCache, callCache, results, n>>
+VARIABLES world, cwd, pkgCache, callCache, results, n
+vars == <<world, cwd, pkgCache, callCache, results, n>>
 
-Init == /\ world = [d \in Docs |-> 1] /\ pkgCache = Builtins /\ callCache = {}
+\* cwd: the process working directory (two directories holding the same documents); calls without a
+\* RelativeBase locate documents from it - at the time of the call, not of an earlier one
+Init == /\ world = [d \in Docs |-> 1] /\ cwd = 1 /\ pkgCache = Builtins /\ callCache = {}
         /\ results = <<>> /\ n = 0
 
 \* one call, atomically: clone the package cache, load what is missing, answer, drop the clone
@@ -47,14 +49,19 @@ Call(c) ==
          /\ results' = Append(results, [call |-> c.name, root |-> c.root,
                                         vers |-> [d \in c.uses |-> world[d]]])
   /\ n' = n + 1
-  /\ UNCHANGED <<world, pkgCache>>
+  /\ UNCHANGED <<world, cwd, pkgCache>>
 
 ChangeWorld(d) ==
   /\ n < MaxLen /\ n' = n + 1
   /\ world' = [world EXCEPT ![d] = 3 - @]
-  /\ UNCHANGED <<pkgCache, callCache, results>>
+  /\ UNCHANGED <<cwd, pkgCache, callCache, results>>
 
-Next == (\E c \in Calls : Call(c)) \/ (\E d \in Docs : ChangeWorld(d))
+ChangeDir ==
+  /\ n < MaxLen /\ n' = n + 1
+  /\ cwd' = 3 - cwd
+  /\ UNCHANGED <<world, pkgCache, callCache, results>>
+
+Next == (\E c \in Calls : Call(c)) \/ (\E d \in Docs : ChangeWorld(d)) \/ ChangeDir
 Spec == Init /\ [][Next]_vars
 
 C16_PkgCache  == pkgCache = Builtins
@@ -64,7 +71,7 @@ C16_Stateless == [][Len(results') > Len(results) =>
                       LET r == results'[Len(results')] IN \A d \in DOMAIN r.vers : r.vers[d] = world[d]]_vars
 
 \* ---- export of all histories with the expected result vectors
-Steps == {[k |-> "call", x |-> c.name] : c \in Calls} \cup {[k |-> "world", x |-> d] : d \in Docs}
+Steps == {[k |-> "call", x |-> c.name] : c \in Calls} \cup {[k |-> "world", x |-> d] : d \in Docs \cup {"cwd"}}
 RECURSIVE Hists(_)
 Hists(m) == IF m = 0 THEN {<<>>}
             ELSE LET H == Hists(m - 1) IN H \cup {Append(h, s) : h \in {g \in H : Len(g) = m - 1}, s \in Steps}
@@ -74,7 +81,7 @@ Expect(h, i, w) ==
   IF i > Len(h) THEN <<>>
   ELSE IF h[i].k = "world"
        THEN <<[k |-> "world", x |-> h[i].x, root |-> "", d1 |-> 0, d2 |-> 0, d3 |-> 0]>>
-            \o Expect(h, i + 1, [w EXCEPT ![h[i].x] = 3 - @])
+            \o Expect(h, i + 1, IF h[i].x = "cwd" THEN w ELSE [w EXCEPT ![h[i].x] = 3 - @])
        ELSE LET c == CallNamed(h[i].x)
                 v(d) == IF d \in c.uses THEN w[d] ELSE 0
             IN  <<[k |-> "call", x |-> c.name, root |-> c.root, d1 |-> v("d1"), d2 |-> v("d2"), d3 |-> v("d3")]>>
